@@ -61,6 +61,8 @@ def obligations(ck, t):
                           ("stores", "all_stores", "all_stores_ok gen = true"),
                           ("select", "select", "select_ok gen = true"),
                           ("zero", "zero_cells_ok", "zero_ok gen = true"),
+                          ("precision", "builder_precision_ok", "precision_ok gen = true"),
+                          ("merge", "merge_embedded_ok", "merge_ok gen = true"),
                           ("covered", "kinds_covered_ok", "kinds_covered gen = true"),
                           ("groups", "groups", "groups_ok gen = true"),
                           ("none", "none_attribute", "none_ok gen = true"),
@@ -75,7 +77,7 @@ def obligations(ck, t):
 
 def diagnostics(ck):
     txt = HDR + ("Eval vm_compute in (failing_tables gen).\nEval vm_compute in (failing_builder gen).\n"
-                 "Eval vm_compute in (not_refused gen).\nEval vm_compute in (failing_select gen).\nEval vm_compute in (failing_zero gen).\nEval vm_compute in (groups_ok gen, none_ok gen, units_ok gen, kinds_covered gen).\n")
+                 "Eval vm_compute in (not_refused gen).\nEval vm_compute in (failing_select gen).\nEval vm_compute in (failing_zero gen).\nEval vm_compute in (failing_precision gen).\nEval vm_compute in (groups_ok gen, none_ok gen, units_ok gen, kinds_covered gen).\n")
     ok, res, out = ck.coq_eval("Diag_C05.v", txt)
     return res if ok else ["diagnostics failed: " + out[-300:]]
 
@@ -101,6 +103,25 @@ COMPONENTS = {
     ],
 }
 NOTES = [None, None, "plain notes", "notes with <angle> & ampersand \"quotes\"", "  leading and trailing  ", "line one\nline two", "café μ"]
+
+
+def idless_components(tag=""):
+    """on every document: >= 2 components of each top-level kind that has no id (LEMS ComponentType x3 with different names,
+    document level <property> x2 -- see doc_properties) and components sharing an id across different member lists"""
+    return [
+        {"cls": "ComponentType", "member": "ComponentType", "args": dict(name="ctCell" + tag, extends="baseCell", description="first custom type"),
+         "children": [{"member": "Parameter", "cls": "Parameter", "args": dict(name="tau", dimension="time")}]},
+        {"cls": "ComponentType", "member": "ComponentType", "args": dict(name="ctSyn" + tag, extends="baseSynapse", description="second custom type"),
+         "children": [{"member": "Parameter", "cls": "Parameter", "args": dict(name="g", dimension="conductance")}]},
+        {"cls": "ComponentType", "member": "ComponentType", "args": dict(name="ctInput" + tag, description="third custom type")},
+        {"cls": "PulseGenerator", "member": "pulse_generators", "args": dict(id="shared_id" + tag, delay="3ms", duration="4ms", amplitude="0.5nA")},
+        {"cls": "SineGenerator", "member": "sine_generators", "args": dict(id="shared_id" + tag, delay="1ms", phase="0", duration="20ms", amplitude="0.1nA", period="7ms")},
+        {"cls": "GapJunction", "member": "gap_junctions", "args": dict(id="shared_id" + tag, conductance="3pS")},
+    ]
+
+
+def doc_properties(tag=""):
+    return [["author" + tag, "someone"], ["version" + tag, "3"]]
 
 
 def fnum(r):
@@ -135,6 +156,8 @@ def delay(r):
     k = r.random()
     if k < 0.15:
         return "0ms"
+    if k < 0.25:
+        return r.choice(["%rms" % round(r.uniform(0, 0.09), 9), "%rs" % (r.randint(1, 99999) * 1e-9), "%rms" % (r.randint(1, 9999) * 1e-7)])
     if k < 0.6:
         return "%sms" % r.choice([r.randint(0, 40), round(r.uniform(0, 30), 3), r.randint(1, 64) / 16.0])
     if k < 0.75:
@@ -184,6 +207,7 @@ def gen_doc(r, n, special=None):
         add(r.choice(list(COMPONENTS)))
     if r.random() < 0.3:
         comps[r.randrange(len(comps))]["args"]["notes"] = r.choice(NOTES[2:])
+    comps += idless_components(str(n % 7))
     r.shuffle(comps)
     net = {"id": "net%d" % n, "notes": r.choice(NOTES), "populations": [], "projections": [], "electrical": [], "continuous": [],
            "input_lists": []}
@@ -271,7 +295,7 @@ def gen_doc(r, n, special=None):
                 c["weight"] = weight(r)
             inputs.append(c)
         net["input_lists"].append({"id": "il%d" % k, "component": r.choice(inps), "population": a["id"], "inputs": inputs})
-    spec = {"id": "doc%d" % n, "notes": r.choice(NOTES), "components": comps, "networks": [net]}
+    spec = {"id": "doc%d" % n, "notes": r.choice(NOTES), "components": comps, "networks": [net], "properties": doc_properties(str(n % 7))}
     return spec, expect
 
 
@@ -290,7 +314,8 @@ def base_spec():
         {"cls": "SilentSynapse", "member": "silent_synapses", "args": dict(id="silent1")},
         {"cls": "GradedSynapse", "member": "graded_synapses", "args": dict(id="gs1", conductance="5pS", delta="5mV", Vth="-55mV", k="0.025per_ms", erev="0mV")},
         {"cls": "GradedSynapse", "member": "graded_synapses", "args": dict(id="gs2", conductance="6pS", delta="5mV", Vth="-55mV", k="0.025per_ms", erev="0mV")},
-        {"cls": "PulseGenerator", "member": "pulse_generators", "args": dict(id="pg", delay="1ms", duration="2ms", amplitude="1nA")}],
+        {"cls": "PulseGenerator", "member": "pulse_generators", "args": dict(id="pg", delay="1ms", duration="2ms", amplitude="1nA")}]
+        + idless_components(), "properties": doc_properties(),
         "networks": [{"id": "n", "notes": "net notes", "populations": [
             {"id": "pA", "component": "iaf", "size": 5, "instances": [], "properties": []},
             {"id": "pB", "component": "iaf", "type": "populationList", "instances": [[0, 1.5, 2, 3], [1, 2.5, 3, 4], [2, 0, 0, 0]], "properties": [["color", "1 0 0"]]}],
@@ -353,7 +378,7 @@ def stored_witnesses():
     # ---- no small repair: known findings
     s, n = case("C05:continuous.pre-component-not-in-document",
                 "a continuous projection whose pre component is not a top-level component of the same document is read back with pre_component silentSyn_<id>")
-    s["components"] = [c for c in s["components"] if c["args"]["id"] != "silent1"]
+    s["components"] = [c for c in s["components"] if c["args"].get("id") != "silent1"]
     n["continuous"].append({"id": "cp", "pre": "pB", "post": "pB", "conns": [
         {"v": "KI", "id": 0, "pre": "../pB/0/iaf", "post": "../pB/1/iaf", "pre_component": "silent1", "post_component": "gs1"}]})
     s, n = case("C05:group-name-substring", "a projection whose id contains 'population_' is taken for a population group by the parser")
@@ -472,6 +497,20 @@ def single_field_cases():
                     n["input_lists"].append({"id": "il", "component": "pg", "population": "pA", "inputs": [inp(v, 1, f)]})
     finally:
         OFFV = saved
+    # many significant digits / extreme magnitudes in every float field (string formatting sites in writer and builder)
+    MAG = [1.2345678e-5, 0.0123456789, 7.6543e-7, 123456.79, 3.0000002]
+    for k, m in enumerate(MAG):
+        n = doc("magnitude:%r" % m)
+        n["projections"].append({"id": "pr", "pre": "pA", "post": "pB", "synapse": "syn1", "conns": [
+            dict(chem("W", 0), weight=m, delay="%rms" % MAG[(k + 1) % 5], pre_fraction_along=min(m, 1.0), post_fraction_along=0.123456789),
+            dict(chem("W", 1), weight=MAG[(k + 2) % 5], delay="%rs" % (MAG[(k + 3) % 5] / 1000.0))]})
+        c1, pop = conn("electrical", "EIW", 1, True)
+        n["electrical"].append({"id": "ce", "pre": pop, "post": pop, "conns": [dict(c1, weight=m, pre_fraction_along=0.123456789)]})
+        c1, pop = conn("continuous", "KIW", 1, True)
+        n["continuous"].append({"id": "ck", "pre": pop, "post": pop, "conns": [dict(c1, weight=m, post_fraction_along=0.987654321)]})
+        n["input_lists"].append({"id": "il", "component": "pg", "population": "pA", "inputs": [
+            dict(inp("IW", 0), weight=m, fraction_along=0.123456789), dict(inp("I", 1), fraction_along=1.2345678e-5)]})
+        n["populations"][1]["instances"] = [[0, m, MAG[(k + 1) % 5], MAG[(k + 2) % 5]], [1, -m, 0.0, 1e-9]]
     for k, f in enumerate(("x", "y", "z")):
         n = doc("population:Instance:%s" % f)
         loc = [0, 0, 0]
@@ -516,7 +555,8 @@ def key_of(dif, verdict, stage, error, reason=""):
     if m:
         return "C05:" + ("network." + m.group(1) if m.group(1) in ("notes", "temperature") else m.group(1))
     if path.startswith("/top"):
-        return "C05:top-level-components"
+        m = re.match(r"/top/(\w+)/(\w+)", path)
+        return "C05:top-level-components" + (":%s.%s" % (m.group(1), m.group(2)) if m else "")
     return "C05:" + re.sub(r"\[\d+\]", "", path).strip("/").replace("/", ".")
 
 
